@@ -5,6 +5,9 @@ package queue
 // group's lock / atomic operations within the pre-emption bound: the sequences handed out are
 // consecutive, acknowledged <= consumed <= appended holds at the end, the acknowledged position
 // is the old one or the argument, and it is the argument only if that was consumed by then.
+// thorough: the same threads under pre-emption bound 3 (time-boxed)
+func verifC06ConsumeVsAck3() { verifC06ConsumeVsAck() }
+
 func verifC06ConsumeVsAck() {
 	dir := verifQueueDir()
 	appended := verifRange("appended", 0, 200000)
